@@ -696,7 +696,10 @@ namespace avel {
     [[nodiscard]]
     AVEL_FINL vec4x64f negate(mask4x64f m, vec4x64f v) {
         #if defined(AVEL_AVX512VL) || defined(AVEL_AVX10_1)
-        return vec4x64f{_mm256_mask_sub_pd(decay(v), decay(m), _mm256_setzero_pd(), decay(v))};
+        // Flip the sign bit of the selected lanes (0 - v would keep the sign of zeros and NaNs)
+        auto bits = _mm256_castpd_si256(decay(v));
+        auto flipped = _mm256_mask_xor_epi64(bits, decay(m), bits, _mm256_set1_epi64x(0x8000000000000000ull));
+        return vec4x64f{_mm256_castsi256_pd(flipped)};
 
         #elif defined(AVEL_AVX)
         auto negation_mask = _mm256_and_pd(decay(m), _mm256_set1_pd(double_sign_bit_mask));
